@@ -538,7 +538,7 @@ pub fn run(cfg: &Cfg) {
     // ---- texts around the escape sequences of the signed form: a literal backslash followed by what looks
     //      like an escape (`\u` and then letters of two, three and four bytes, too few digits, the end of the
     //      text), in every string of a link that is signed, verified and re-signed, and in a key description
-    for t in ["\\u\u{65e5}\u{672c}", "dist\\ua\u{e9}\u{e9}.bin", "C:\\u\u{65e5}\u{672c}\\out.txt", "\\u", "\\", "x\\", "\\u12", "\\u\u{1F600}", "\\u00\u{e9}9", "\"\\u", "\\\\u\u{e9}\u{e9}\u{e9}", "\\n\\u\u{e9}", "\\ud800", "\\uDFFF\u{e9}", "\\u+123", "\n\\u\u{4e2d}", "\\b\\f\\r\\t\\/"] {
+    for t in ["\\u\u{65e5}\u{672c}", "dist\\ua\u{e9}\u{e9}.bin", "C:\\u\u{65e5}\u{672c}\\out.txt", "\\u00e9", "D:\\ufeed", "\\u0041\\u0042", "say \\u000a", "\\u", "\\", "x\\", "\\u12", "\\u\u{1F600}", "\\u00\u{e9}9", "\"\\u", "\\\\u\u{e9}\u{e9}\u{e9}", "\\n\\u\u{e9}", "\\ud800", "\\uDFFF\u{e9}", "\\u+123", "\n\\u\u{4e2d}", "\\b\\f\\r\\t\\/"] {
         let meta = crate::c11::link_with(t);
         let key = &pool[0];
         let replay = format!("signed-text string {}", hex(t.as_bytes()));
@@ -648,6 +648,26 @@ pub fn run(cfg: &Cfg) {
                 true
             });
             sink.oracle(res.is_ok(), "turning a text-decoding error into the crate's error panicked", &format!("bytes {}", hex(bad)));
+        }
+    }
+    // SLSA provenance v0.1 predicates whose `recipe.definedInMaterial` points at every place around the list of
+    // materials: inside it, at its last element, just past it, far past it - with no, one, two, three materials,
+    // with the list absent - alone and inside a statement
+    for nmat in 0..=3usize {
+        for dim in 0..=(nmat as u64 + 2) {
+            for absent in [false, true] {
+                if absent && nmat > 0 {
+                    continue;
+                }
+                let mats: Vec<serde_json::Value> = (0..nmat).map(|i| serde_json::json!({"uri": format!("git+https://example.org/r{}", i), "digest": {"sha1": "d6525c840a62b398424a78d792f457477135d0cf"}})).collect();
+                let mut pred = serde_json::json!({"builder": {"id": "https://example.org/builder"}, "recipe": {"type": "https://example.org/make", "definedInMaterial": dim, "entryPoint": "all"}});
+                if !absent {
+                    pred["materials"] = serde_json::Value::Array(mats);
+                }
+                feed_all_parsers(&mut sink, pred.to_string().as_bytes());
+                let stmt = serde_json::json!({"_type": "https://in-toto.io/Statement/v0.1", "subject": {"out.bin": {"sha256": "ab".repeat(32)}}, "predicateType": "https://slsa.dev/provenance/v0.1", "predicate": pred});
+                feed_all_parsers(&mut sink, stmt.to_string().as_bytes());
+            }
         }
     }
     // deep nesting up to and beyond serde_json's recursion limit
